@@ -528,6 +528,9 @@ def _judge_measurement(T):
             else:
                 if info["measured"]:
                     V.append(_viol("C05", "nd", T, "destroyed-by-nondestructive", f"{s} flagged measured"))
+                elif len(o1.place.get(s, [])) != 1:
+                    V.append(_viol("C05", "nd", T, "lost",
+                                   f"{s} was measured but must survive, and is now stored in {len(o1.place.get(s, []))} places"))
         for s in o1.sub:
             if s not in keys and o1.sub[s]["measured"] and not o0.sub[s]["measured"]:
                 V.append(_viol("C05", "retire", T, "bystander-destroyed", f"{s} destroyed but not in outcome dictionary"))
